@@ -89,6 +89,9 @@ def cli_batch(acc, batch, ranks=2, only=None):
             if hashing:
                 conf["use_spec_hashes"] = True
                 hashes = {wf.names()[0]: "0" * 40, "Gone": "1" * 40}
+                if hashing == "stale-first":
+                    # only the first target's record is out of date; every other target already has the right one
+                    hashes.update({n: W.sha1(f"echo {n}\n") for n in wf.names()[1:]})
             w0 = W.World(wf, files=files, conf=conf, hashes=hashes, logs={"A.stdout": "x"})
             for sel in selections(wf.names()):
                 if only is not None and (list(state), sel) != only:
@@ -235,7 +238,7 @@ def run(ctx):
     import mc.checks.c16 as me
 
     quick = ctx.tier == "quick"
-    ctx.pmap(me, "cli_batch", [(w, h) for w in wf_defs() for h in (False, True)], chunk=1, ranks=2 if quick else 3)
+    ctx.pmap(me, "cli_batch", [(w, h) for w in wf_defs() for h in (False, True)] + [(w, "stale-first") for w in ("chain", "fork", "shortcut")], chunk=1, ranks=2 if quick else 3)
     if not quick:
         # four distinct ages per output for the workflows with three outputs (every order of three files plus 'older than all')
         ctx.pmap(me, "cli_batch", [(w, h) for w in ("chain", "shortcut", "subdirs") for h in (False, True)], chunk=1, ranks=4)
